@@ -197,3 +197,62 @@ func VerifC06_WRRLag() {
 	}
 	verif.Cover("end")
 }
+
+// VerifC06_WRRRecovered: the balancer is built while some (or all) hosts are
+// unhealthy - host health changes do not rebuild it - and then every host
+// recovers. From then on the configured weights hold again: over one full
+// cycle each host is chosen exactly weight times, also the hosts that were
+// unhealthy when the balancer was built; with some picks made before the
+// recovery, a recovered host is chosen again within two cycles.
+func VerifC06_WRRRecovered() {
+	verif.Replace("math/rand.NewSource", func(int64) rand.Source { return zzAnySource{} })
+	n := 2 + verif.Choose("hosts", 2)
+	var hs []types.Host
+	var ms []*zzLBHost
+	total := 0
+	unhealthy := 0
+	for i := 0; i < n; i++ {
+		w := []uint32{1, 2, 4}[verif.Choose("weight", 3)]
+		ok := verif.Choose("healthy_at_build", 2) == 1
+		if !ok {
+			unhealthy++
+		}
+		m := &zzLBHost{name: zzHostNames[i], healthy: ok, weight: w}
+		ms = append(ms, m)
+		hs = append(hs, m)
+		total += int(w)
+	}
+	verif.Assume(unhealthy > 0)
+	lb := newWRRLoadBalancer(nil, NewHostSet(hs)).(*WRRLoadBalancer)
+	lb.rrLB.(*roundRobinLoadBalancer).rrIndex = uint32(verif.Choose("rr_start", 3))
+	ctx := &zzLBCtx{ctx: context.Background()}
+	before := 2 * verif.Choose("picks_before_recovery", 2)
+	for k := 0; k < before; k++ {
+		h := lb.ChooseHost(ctx)
+		verif.Assert(h == nil || h.Health(), "an unhealthy host was picked")
+	}
+	for _, m := range ms {
+		m.healthy = true
+	}
+	counts := make([]int, n)
+	rounds := 1
+	if before > 0 {
+		rounds = 2
+	}
+	for k := 0; k < rounds*total; k++ {
+		h := lb.ChooseHost(ctx)
+		for i := range hs {
+			if hs[i] == h {
+				counts[i]++
+			}
+		}
+	}
+	for i := range hs {
+		if before == 0 {
+			verif.Assert(counts[i] == int(hs[i].Weight()), "after all hosts recovered a host is not chosen exactly weight times per cycle (a host unhealthy when the balancer was built stays out, or weights are ignored)")
+		} else {
+			verif.Assert(counts[i] > 0, "a recovered host is not chosen within two full cycles")
+		}
+	}
+	verif.Cover("end")
+}
